@@ -125,25 +125,25 @@ Proof.
 Qed.
 
 Lemma setmapping_lookup_lemma csr f data c :
-  prefix_free csr -> cid_data_ok csr data ->
+  prefix_free csr -> cid_data_ok csr data -> omit_safe f (code_entries csr data) ->
   lookup_cid (set_mapping csr f data) c =
   match assoc (code_entries csr data) c with
   | Some v => v
-  | None => match c_parent f with
-            | Some p => lookup_cid p c
+  | None => match parent_opt f c with
+            | Some v => v
             | None => lookup_notdef f c
             end
   end.
 Proof.
-  intros Hpf Hd. destruct (cid_data_entries csr data Hpf Hd) as (H1 & H2 & H3 & _).
+  intros Hpf Hd Hs. destruct (cid_data_entries csr data Hpf Hd) as (H1 & H2 & H3 & _).
   apply setmapping_lookup_bytes_lemma; assumption.
 Qed.
 
 Lemma setmapping_lookup_mapped_lemma csr f data code v :
-  prefix_free csr -> cid_data_ok csr data -> In (code, v) data ->
+  prefix_free csr -> cid_data_ok csr data -> omit_safe f (code_entries csr data) -> In (code, v) data ->
   lookup_cid (set_mapping csr f data) (append_code csr code) = v.
 Proof.
-  intros Hpf Hd Hin. rewrite setmapping_lookup_lemma by assumption.
+  intros Hpf Hd Hs Hin. rewrite setmapping_lookup_lemma by assumption.
   destruct Hd as (H1 & H2 & _). rewrite (code_entries_assoc csr data code v Hpf H1 H2 Hin). reflexivity.
 Qed.
 
@@ -252,16 +252,57 @@ Proof.
   - vm_compute. discriminate.
 Qed.
 
-(* ---- notdef entries of a file that has a parent --------------------------- *)
+(* ---- notdef entries of a file that has a parent (F31) ---------------------- *)
+
+Definition simple_prefix_free : prefix_free simple_csr.
+Proof.
+  intros s k Hin Hk. unfold simple_csr, in_csr in Hin. cbn [existsb fst snd] in Hin.
+  destruct s as [|a [|b s]]; cbn [length] in Hk; try lia.
+  cbn [in_box] in Hin. rewrite !andb_false_r in Hin. discriminate.
+Qed.
 
 Definition notdef_witness : cfile :=
   CFile simple_csr [([80], 9)] [] [] [([32], [96], 3)]
         (Some (CFile simple_csr [([65], 1)] [] [] [] None)).
 
-Lemma notdef_refuted :
-  exists f c, lookup_cid_opt f c = None /\ lookup_cid f c <> lookup_notdef f c.
+Lemma notdef_full_lemma f c : lookup_cid_opt f c = None -> lookup_cid f c = lookup_notdef f c.
+Proof. intros H. unfold lookup_cid. rewrite H. reflexivity. Qed.
+
+Lemma notdef_prefix_refuted :
+  exists f c, lookup_cid_opt f c = None /\ lookup_cid_prefix f c <> lookup_notdef f c.
 Proof. exists notdef_witness, [48]. split; vm_compute; [reflexivity|discriminate]. Qed.
 
-Lemma notdef_root_lemma f c :
-  lookup_cid_opt f c = None -> lookup_cid f c = lookup_notdef (c_root f) c.
-Proof. intros H. rewrite lookup_cid_split, H. reflexivity. Qed.
+Lemma notdef_prefix_root_lemma f c :
+  lookup_cid_opt f c = None -> lookup_cid_prefix f c = lookup_notdef (c_root f) c.
+Proof. intros H. rewrite lookup_cid_prefix_split, H. reflexivity. Qed.
+
+(* ---- SetMapping omits an entry the parent answers from ITS notdef entries ---- *)
+
+(* a file with a parent and the notdef range <20>-<60> -> 7; the map 50 -> 0 *)
+Definition shadow_file : cfile :=
+  CFile simple_csr [] [] [] [([32], [96], 7)] (Some (CFile simple_csr [([65], 1)] [] [] [] None)).
+Definition shadow_data : list (N * N) := [(80, 0); (81, 9)].
+
+Lemma shadow_data_ok : cid_data_ok simple_csr shadow_data.
+Proof.
+  unfold cid_data_ok, shadow_data. repeat split.
+  - repeat constructor; cbn; intuition discriminate.
+  - repeat constructor.
+    + exists [80]. vm_compute. repeat split; repeat constructor; lia.
+    + exists [81]. vm_compute. repeat split; repeat constructor; lia.
+  - repeat constructor; cbn; unfold two32; lia.
+Qed.
+
+Lemma setmapping_mapped_refuted :
+  exists csr f data code v,
+    prefix_free csr /\ cid_data_ok csr data /\ In (code, v) data /\
+    lookup_cid (set_mapping csr f data) (append_code csr code) <> v.
+Proof.
+  exists simple_csr, shadow_file, shadow_data, 80, 0. repeat split.
+  - exact simple_prefix_free.
+  - apply shadow_data_ok.
+  - apply shadow_data_ok.
+  - apply shadow_data_ok.
+  - left. reflexivity.
+  - vm_compute. discriminate.
+Qed.
